@@ -38,7 +38,11 @@ def build(pre, plaincls, linkcls):
             else:
                 plaincls_here = plaincls
             plaincls, saved_cls = plaincls_here, plaincls
-            if plaincls in (N.HNode, N.HNodeRO):
+            if plaincls is N.HLightT:
+                o = plaincls()
+                if "name" in own:
+                    o.name = pyval(own["name"])
+            elif plaincls in (N.HNode, N.HNodeRO):
                 o = plaincls(pyval(own.get("name", lbl)))
             else:
                 o = plaincls(name=pyval(own["name"])) if "name" in own else plaincls()
@@ -69,7 +73,8 @@ def project():
     par, ch = N.snapshot()
     tgt, reads, own = {}, {}, {}
     for lbl, o in N.Ctx.objs.items():
-        t = o.__dict__.get("target") if hasattr(o, "__dict__") else None
+        d = getattr(o, "__dict__", None)
+        t = d.get("target") if d is not None else None
         tgt[lbl] = N.label(t) if t is not None else "Nil"
         r = {}
         for k in KEYS:
@@ -79,14 +84,17 @@ def project():
             except AttributeError:
                 r[k] = "AttributeError"
         reads[lbl] = r
-        own[lbl] = {k: token(v) for k, v in o.__dict__.items() if k != "target" and not k.startswith("_NodeMixin__") and not k.startswith("_LightNodeMixin__")}
+        if d is None:     # __slots__ class
+            own[lbl] = {k: token(getattr(o, k)) for k in KEYS if hasattr(o, k)}
+        else:
+            own[lbl] = {k: token(v) for k, v in d.items() if k != "target" and not k.startswith("_NodeMixin__") and not k.startswith("_LightNodeMixin__")}
     return {"alive": sorted(N.Ctx.objs), "tgt": tgt, "par": par, "ch": ch, "reads": reads, "own": own}
 
 
 def perform(vec, plain, link):
     from . import nodes as N
 
-    plaincls = {"node": N.HNode, "anynode": N.HAny}[plain]
+    plaincls = {"node": N.HNode, "anynode": N.HAny, "light": N.HLightT}[plain]
     linkcls = {"symlink": N.HSym, "symlinkmixin": N.HSymMixin}[link]
     pre, z = vec["pre"], vec["z"]
     for side in (pre, z):     # an empty TLA+ function is printed as []
@@ -121,6 +129,26 @@ def perform(vec, plain, link):
     return {"pre": dict(built, own=None), "post": project(), "exc": exc}
 
 
+def light_applicable(vec):
+    """Targets of the other mixin family (LightNodeMixin, __slots__) live in trees of their own: only vectors in which the
+    ordinary nodes are never related to a link structurally, and which do not need the read-only sentinel."""
+    pre, z = vec["pre"], vec["z"]
+    plain = {l for l in set(pre["alive"]) | set(z["alive"]) if z["tgt"].get(l, pre["tgt"].get(l)) == "Nil"}
+    for side in (pre, z):
+        for l in plain:
+            if side["par"].get(l, "Nil") != "Nil" or side["ch"].get(l):
+                return False
+            if isinstance(side["own"].get(l), dict) and "ro" in side["own"][l].values():
+                return False
+    if z["act"] == "sp":
+        return z["n"] not in plain and z["a1"][0] not in plain
+    if z["act"] == "sc":
+        return z["n"] not in plain and not (set(z["a1"]) & plain)
+    if z["act"] == "newlink":
+        return z["a1"][1] not in plain
+    return True
+
+
 def same(vec, obs):
     z = vec["z"]
     p = obs["post"]
@@ -143,7 +171,9 @@ def replay_chunk(lines):
     for line in lines:
         vec = json.loads(json.loads(line))
         kws = vec["z"]["act"] == "newlink" and vec["z"]["a2"]
-        for plain, link in (("node", "symlink"), ("anynode", "symlinkmixin"), ("anynode", "symlink")):
+        for plain, link in (("node", "symlink"), ("anynode", "symlinkmixin"), ("anynode", "symlink"), ("light", "symlink")):
+            if plain == "light" and not light_applicable(vec):
+                continue
             out["n"] += 1
             try:
                 obs = core.call_with_deadline(lambda: perform(vec, plain, link))
